@@ -118,6 +118,8 @@ impl GpuBackend {
     }
 
     fn node(&self) -> MutexGuard<'_, BackendInternal> {
+        #[cfg(feature = "verif-hooks")]
+        crate::vhost_user::verif::lock_point("gpu_backend", &self.node);
         self.node.lock().unwrap()
     }
 
